@@ -36,3 +36,27 @@ package consensus
 //@   modifies *
 //@   ensures [foundHasReader] found ==> err == nil && rd != nil
 //@   ensures [notFoundOnlyWhenPast] !found && err == nil ==> index < min || (lastHeightFound > 0 && lastHeightFound < height)
+
+// ---------------------------------------------------------------- C03/C01: the locking discipline at its code sites
+
+// A correct validator signs one prevote per round: doPrevote (the only prevote signer besides the
+// timeout path through this same function) is reached only if this height/round has not yet reached
+// the prevote step.
+//@ func (cs *ConsensusState) enterPrevote(height uint64, round uint32)
+//@   for C03
+//@   requires cs != nil
+//@   modifies *
+//@   opt noinline
+//@   opt assumecallreqs
+//@   atcall ConsensusState.doPrevote requires [noSecondPrevoteInRound] cs.Height == height && !(cs.Round == round && cs.Step >= cstypes.RoundStepPrevote) && cs.Round <= round
+
+// The lock taken with a precommit is released by a prevote quorum only if that quorum is for another
+// block in a round after the lock round and not beyond the current round.
+//@ func (cs *ConsensusState) addVote(vote *types.Vote, peerID p2p.ID) (added bool, err error)
+//@   for C03 C01
+//@   requires cs != nil && vote != nil
+//@   modifies *
+//@   opt noinline
+//@   opt assumecallreqs
+//@   atstore RoundState.LockedRound requires [unlockOnlyOnLaterPolka] old < vote.Round && vote.Round <= cs.Round
+//@   atstore RoundState.LockedBlock requires [lockNeverSetHere] new == nil
